@@ -134,6 +134,8 @@ func materialize(a absVal, env *runEnv) interface{} {
 			return htmlerStringer{decodeChars(a.S)}
 		}
 		return template.HTML(decodeChars(a.S))
+	case "imap": // a Go map with int keys holding the key 1
+		return map[int]interface{}{1: materialize(a.maps()["one"], env)}
 	case "time":
 		return time.Date(2024, 3, 5, 10, 30, 0, 0, time.UTC)
 	case "rec":
@@ -270,30 +272,38 @@ func (r vRec) Fail() (vRec, error) {
 	return vRec{Name: "n"}, errSentinel
 }
 
+// vHolder: a value with an Interface() method (write prints what it returns)
+type vHolder struct{ v interface{} }
+
+func (h vHolder) Interface() interface{} { return h.v }
+
 // vRole: a defined type over string (no methods)
 type vRole string
 
 var opaqueKinds = map[string]func() interface{}{
-	"nilptr_struct":    func() interface{} { return (*vStruct)(nil) },
-	"nilptr_int":       func() interface{} { return (*int)(nil) },
-	"ptr_struct":       func() interface{} { return &vStruct{Name: "s"} },
-	"ptr_int":          func() interface{} { return new(int) },
-	"struct":           func() interface{} { return vStruct{} },
-	"nil_slice":        func() interface{} { return []string(nil) },
-	"empty_slice":      func() interface{} { return []int{} },
-	"nil_map":          func() interface{} { return map[string]int(nil) },
-	"empty_map":        func() interface{} { return map[string]string{} },
-	"int8_zero":        func() interface{} { return int8(0) },
-	"uint_zero":        func() interface{} { return uint(0) },
-	"float32_zero":     func() interface{} { return float32(0) },
-	"int64_one":        func() interface{} { return int64(1) },
-	"time":             func() interface{} { return time.Time{} },
-	"func":             func() interface{} { return func() {} },
-	"empty_array":      func() interface{} { return [0]int{} },
-	"slice_str":        func() interface{} { return []string{"a"} },
-	"ptr_false":        func() interface{} { return new(bool) },
-	"ptr_empty_string": func() interface{} { return new(string) },
-	"ptr_empty_html":   func() interface{} { return new(template.HTML) },
+	"nilptr_struct":       func() interface{} { return (*vStruct)(nil) },
+	"nilptr_int":          func() interface{} { return (*int)(nil) },
+	"ptr_struct":          func() interface{} { return &vStruct{Name: "s"} },
+	"ptr_int":             func() interface{} { return new(int) },
+	"struct":              func() interface{} { return vStruct{} },
+	"nil_slice":           func() interface{} { return []string(nil) },
+	"empty_slice":         func() interface{} { return []int{} },
+	"nil_map":             func() interface{} { return map[string]int(nil) },
+	"empty_map":           func() interface{} { return map[string]string{} },
+	"int8_zero":           func() interface{} { return int8(0) },
+	"uint_zero":           func() interface{} { return uint(0) },
+	"float32_zero":        func() interface{} { return float32(0) },
+	"int64_one":           func() interface{} { return int64(1) },
+	"time":                func() interface{} { return time.Time{} },
+	"func":                func() interface{} { return func() {} },
+	"empty_array":         func() interface{} { return [0]int{} },
+	"slice_str":           func() interface{} { return []string{"a"} },
+	"holder_nil":          func() interface{} { return vHolder{nil} },
+	"holder_false":        func() interface{} { return vHolder{false} },
+	"holder_empty_string": func() interface{} { return &vHolder{""} },
+	"ptr_false":           func() interface{} { return new(bool) },
+	"ptr_empty_string":    func() interface{} { return new(string) },
+	"ptr_empty_html":      func() interface{} { return new(template.HTML) },
 }
 
 // ------------------------------------------------------------------ recording helpers
